@@ -125,6 +125,28 @@ class Repo(object):
                     is_pkg = False
                 self.modules[name] = Module(name, path, src, tree, is_pkg)
 
+    def add_virtual(self, name, src):
+        """Register analysis-side source (probe classes deriving from repository classes) as a module.
+        It is parsed and resolved like any module of the package, never executed."""
+        if name in self.modules:
+            return self.modules[name]
+        tree = ast.parse(src, filename="<virtual:%s>" % name)
+        m = Module(name, "<virtual:%s>" % name, src, tree, False)
+        self.modules[name] = m
+        self._bind_body(m, tree.body)
+        new = []
+        for st in tree.body:
+            if isinstance(st, ast.ClassDef):
+                ci = ClassInfo(m.name + "." + st.name, m, st)
+                self.classes[ci.qual] = ci
+                new.append(ci)
+        for ci in new:
+            for b in ci.base_exprs:
+                r = self.resolve_expr(m, b)
+                if r and r[0] == "class" and r[1] in self.classes:
+                    ci.bases.append(r[1])
+        return m
+
     def digest(self, names=None):
         h = hashlib.sha256()
         for n in sorted(names or self.modules):
@@ -161,6 +183,10 @@ class Repo(object):
                     pk = pk[:len(pk) - (st.level - 1)]
                     mod = ".".join(pk + ([mod] if mod else []))
                 for a in st.names:
+                    if a.name == "*":
+                        cur = m.ns.get("*", ("star", []))
+                        m.ns["*"] = ("star", cur[1] + [mod])
+                        continue
                     m.ns[a.asname or a.name] = ("from", mod, a.name)
             elif isinstance(st, (ast.FunctionDef, ast.AsyncFunctionDef)):
                 m.ns[st.name] = ("func", st)
@@ -187,6 +213,13 @@ class Repo(object):
             return None
         b = m.ns.get(name)
         if b is None:
+            # from X import *
+            for mod in m.ns.get("*", ("star", []))[1] if "*" in m.ns else []:
+                tm = self.modules.get(mod)
+                if tm is not None and not name.startswith("_"):
+                    r = self.resolve(tm, name, _depth + 1)
+                    if r is not None:
+                        return r
             return None
         if b[0] == "module":
             return ("module", b[1])
